@@ -163,7 +163,7 @@ pub fn spec(id: &str) -> Option<PropSpec> {
             families: vec![(Family::C06, 68), (Family::C14, 17), (Family::C13X, 15), (Family::C06L, 0)],
             quick_runs: 28_000,
             thorough_runs: 2_000_000,
-            rule: "16 runs (thorough; quick: 2, one MQTT 5 and one MQTT 3.1.1) of the long-history family C06L - three senders make more than 65 536 sends (QoS 1, now and then exactly-once or subscribe) over one connection with a window of 1..16, so that the 16-bit identifier counter wraps with exchanges outstanding; linear-time oracle: identifiers non-zero and never carried by two exchanges at once, every send completes with the acknowledgement of its own identifier, no panic, the connection stays up. Part of the runs come from the enumerating family C13X (every short sequence of start / drop / acknowledge / back-pressure events against three senders, see C13), judged by the same oracle; one run = sends with automatic and caller-chosen ids acknowledged by a peer that is correct or injects one deviation (reordered id, wrong ack type, duplicate, unknown id, unsolicited); reference model = FIFO of outstanding exchanges seen on the wire; oracle: Ok only after a matching ack of the right type was sent, contents equal, ids of outstanding sends distinct and non-zero, deviation ends the connection, correct peer never does; distinct = distinct abstract history signature; non-trivial = a deviation was actually delivered, or two or more exchanges were outstanding together",
+            rule: "16 runs (thorough; quick: 4, one per role) of the long-history family C06L - five senders make more than 65 536 sends (QoS 1, now and then exactly-once or subscribe) over one connection with a window of 1..16, so that the 16-bit identifier counter wraps with exchanges outstanding; linear-time oracle: identifiers non-zero and never carried by two exchanges at once, every send completes with the acknowledgement of its own identifier, no panic, the connection stays up. Part of the runs come from the enumerating family C13X (every short sequence of start / drop / acknowledge / back-pressure events against three senders, see C13), judged by the same oracle; one run = sends with automatic and caller-chosen ids acknowledged by a peer that is correct or injects one deviation (reordered id, wrong ack type, duplicate, unknown id, unsolicited); reference model = FIFO of outstanding exchanges seen on the wire; oracle: Ok only after a matching ack of the right type was sent, contents equal, ids of outstanding sends distinct and non-zero, deviation ends the connection, correct peer never does; distinct = distinct abstract history signature; non-trivial = a deviation was actually delivered, or two or more exchanges were outstanding together",
             nontrivial: nt_c06,
             assumptions: base,
         },
@@ -273,7 +273,7 @@ pub fn spec(id: &str) -> Option<PropSpec> {
             families: vec![(Family::C20, 100), (Family::C20L, 0)],
             quick_runs: 24_000,
             thorough_runs: 1_500_000,
-            rule: "16 runs (thorough; quick: 2) of the long-time family C20L - two simulated hours of a live connection (server: a packet every keep-alive period or half period, some in two pieces, with and without a frame read rate, then silence; client: pings for two hours next to an exhausted send window, the broker publishing once a minute), judged by the same clauses. timers run on the simulated clock; arrival patterns on a 0.5/1 s grid. Four scenario kinds: (1) server keep-alive 1..3 s / 0, optional handshake override 1..3 s, 0..5 complete packets (some cut in two pieces delivered 0.5..2 s apart) at gaps of 0.5..4 s, then silence, handlers immediate or held; (2) frame read rate (timeout 1..2 s, max 0/4/6 s, rate 4/16/64 B) against one frame that trickles 1..128 bytes every 0.5..2 s and finishes or stalls; (3) connect timeout 1..3 s against a CONNECT that is on time, late, cut in two, a fragment, or never sent; (4) client keep-alive 1..3 s with a peer that answers PINGREQ or not. Oracle with 1 s slack (timer wheel granularity): a keep-alive timeout only after the timeout in force since the last complete packet, every silence longer than it ends the connection with the keep-alive reason (MQTT 5: DISCONNECT 0x8D), no read timeout without a pending partial frame or for a frame completed in time, a frame that stalls for good is ended with a read timeout, connect timeout enforced and not applied to a CONNECT that was on time, client writes PINGREQ at least once per keep-alive period and is never ended by these timers; distinct = distinct abstract history signature; non-trivial = a timer ended the connection or the run covered at least two keep-alive periods",
+            rule: "16 runs (thorough; quick: 4) of the long-time family C20L - two simulated hours of a live connection (server: a packet every keep-alive period or half period, some in two pieces, with and without a frame read rate, then silence; client: pings for two hours next to an exhausted send window, the broker publishing once a minute), judged by the same clauses. timers run on the simulated clock; arrival patterns on a 0.5/1 s grid. Four scenario kinds: (1) server keep-alive 1..3 s / 0, optional handshake override 1..3 s, 0..5 complete packets (some cut in two pieces delivered 0.5..2 s apart) at gaps of 0.5..4 s, then silence, handlers immediate or held; (2) frame read rate (timeout 1..2 s, max 0/4/6 s, rate 4/16/64 B) against one frame that trickles 1..128 bytes every 0.5..2 s and finishes or stalls; (3) connect timeout 1..3 s against a CONNECT that is on time, late, cut in two, a fragment, or never sent; (4) client keep-alive 1..3 s with a peer that answers PINGREQ or not. Oracle with 1 s slack (timer wheel granularity): a keep-alive timeout only after the timeout in force since the last complete packet, every silence longer than it ends the connection with the keep-alive reason (MQTT 5: DISCONNECT 0x8D), no read timeout without a pending partial frame or for a frame completed in time, a frame that stalls for good is ended with a read timeout, connect timeout enforced and not applied to a CONNECT that was on time, client writes PINGREQ at least once per keep-alive period and is never ended by these timers; distinct = distinct abstract history signature; non-trivial = a timer ended the connection or the run covered at least two keep-alive periods",
             nontrivial: nt_c20,
             assumptions: base,
         },
